@@ -49,7 +49,7 @@ def _case(draw):
     field = PolyField(d, nargs, degree, with_time=True)
     lift = draw(st.integers(0, 5))
     case = dict(mode=mode, d=d, nargs=nargs, degree=degree, C=_sparse_C(draw, field, d), lift=lift,
-                jet=draw(gen.mat(nargs + 6, d, gen.quarter(-6, 6))), t0=draw(gen.quarter(-8, 8)),
+                jet=draw(gen.mat(nargs + 8, d, gen.quarter(-6, 6))), t0=draw(gen.quarter(-8, 8)),
                 bad=draw(st.sampled_from(["negative", "too_large", "non_int", "too_large_by_one"])),
                 extra=draw(st.integers(0, 2)), fact=draw(st.sampled_from(gen.FACTS)), lin=draw(st.sampled_from(["ts0", "ts1", "residual", "ts0_lifted"])),
                 damp=draw(st.sampled_from([0.0, 0.25])), n_extra=draw(st.integers(0, 2)),
